@@ -200,7 +200,7 @@ def run(tier, seed, replay=None):
         rep.violation("the executor does not build (BUILD_EXECUTOR=ON)", {"kind": "build", "theorem_or_correspondence": "cmake build of /repo", "log": str(e)}, no_input=True)
     rep.cov.update({
         "evaluations": len(lines), "distinct_nontrivial": stats.get("ok", 0) + stats.get("ok+gave-up", 0),
-        "rule": "seeded execution histories: 1-5 named Interval/Impulse goals and facts (one predicate creates an Impulse sub-goal), lower bounds, minimum durations and difference constraints with integer or fractional constants; units per tick 1, 2 or 1/2; 6-22 ticks; 0-4 delay requests (from callbacks of a given tick or between ticks, integer or fractional amounts), failure() in 15% of the histories",
+        "rule": "seeded execution histories: 1-5 named Interval/Impulse goals and facts (one predicate creates an Impulse sub-goal), lower bounds, minimum durations and difference constraints with integer or fractional constants; units per tick 1, 2 or 1/2; 6-22 ticks; 0-4 delay requests (from callbacks of a given tick or between ticks, integer or fractional amounts), failure() in 15% of the histories; 40% with an alternative ordering of two named intervals (and a deadline) whose first atom is delayed until only the other ordering remains, 35% with two alternative sub-plans owning unnamed goals of which the active one is made to fail after the named interval was delayed and started, deadlines on 15% of the atoms",
         "samples": lines[:1], "configurations": ["exec"], "outcomes": stats, "events_observed": events,
     })
     return rep.finish()
